@@ -324,10 +324,30 @@ func (vetoPlugin) PreCall(ctx context.Context, serviceName, methodName string, a
 	return args, nil
 }
 
+// a PostReadRequest plugin that refuses the requests marked x-limit=1 the way the rate limiters do, and an AuthFunc
+// that refuses the token "deny": both are answered by the connection loop itself and never dispatched
+const srvAuthText = "auth: token refused"
+
+type limitPlugin struct{}
+
+func (limitPlugin) PostReadRequest(ctx context.Context, r *protocol.Message, e error) error {
+	if r != nil && r.Metadata["x-limit"] == "1" {
+		return server.ErrReqReachLimit
+	}
+	return nil
+}
+
 func newSrvRig(gated bool, opts ...server.OptionFn) *srvRig {
 	r := &srvRig{ln: newPipeListener(), h: newHandlerEnv(gated), done: make(chan error, 1)}
 	r.srv = server.NewServer(opts...)
 	r.srv.Plugins.Add(vetoPlugin{})
+	r.srv.Plugins.Add(limitPlugin{})
+	r.srv.AuthFunc = func(ctx context.Context, req *protocol.Message, token string) error {
+		if token == "deny" {
+			return errors.New(srvAuthText)
+		}
+		return nil
+	}
 	r.srv.RegisterName("Arith", &Arith{h: r.h}, "")
 	r.srv.RegisterName("ArithP", &ArithP{h: r.h}, "")
 	r.srv.RegisterName("ArithV", &ArithV{h: r.h}, "")
@@ -505,6 +525,10 @@ func errKind(v respView, texts []string) string {
 	switch {
 	case t == srvVetoText:
 		return "text:901"
+	case t == server.ErrReqReachLimit.Error():
+		return "text:902"
+	case t == srvAuthText:
+		return "text:903"
 	case strings.HasPrefix(t, "rpcx: can't find service "):
 		return "nosvc"
 	case strings.HasPrefix(t, "rpcx: can't find method "):
